@@ -616,6 +616,122 @@ Section Split.
       pose proof (F_T T ltac:(lia)). pose proof (F_0 T ltac:(lia)). lia.
   Qed.
 
+
+  (* ----- termination: a simple measure.  Every "type < step" guess raises low; every other guess is made at an index
+     g with g < offsets[type g], and removes g from that set.  Hence at most (count - low) + #{such g} <= 2 count passes.
+     (Remark: the true worst case seems to be count + T - 1 passes - exhaustive up to count = 10, T = 7, adversarial search
+     up to count = 42; witness types [1,1,1,2,2,2,3,4,4,4], T = 6: 15 passes - but that bound needs an amortisation
+     across type blocks: one block of size B can cost B + 2 guesses, e.g. block {3,4,5} of the witness.  The fuel of
+     split_model, S (2 * length types + T), is chosen so that the simple measure suffices.) *)
+  Definition Mono (offs : list Z) (step : Z) : Prop :=
+    forall i j, step <= i -> i <= j -> j <= T -> nthz offs i <= nthz offs j.
+  Definition guessable (offs : list Z) (step : Z) (x : nat) : bool :=
+    (step <=? nth x types 0) && (Z.of_nat x <? nthz offs (nth x types 0)).
+  Definition measure (offs : list Z) (low step : Z) : nat :=
+    (Z.to_nat (count - low) + cnt (guessable offs step) (length types))%nat.
+
+  Lemma Mono_step offs step step' : step <= step' -> Mono offs step -> Mono offs step'.
+  Proof. intros H HM i j Hi Hij Hj. apply HM; lia. Qed.
+
+  Lemma guessable_step offs step step' : step <= step' ->
+    (cnt (guessable offs step') (length types) <= cnt (guessable offs step) (length types))%nat.
+  Proof.
+    intros H. apply cnt_mono. intros p Hp. unfold guessable. rewrite !andb_true_iff, !Z.leb_le. intros [H1 H2]. split; [lia|exact H2].
+  Qed.
+
+  Lemma body_measure offs low high step : SInv offs low step -> Mono offs step -> step < T -> high = nthz offs step -> low < high ->
+    let '(offs1, low1, high1) := body offs low high step in
+    Mono offs1 step /\ (measure offs1 low1 step < measure offs low step)%nat.
+  Proof.
+    intros HI HM Hst Hh Hlh. destruct HI as (Hl & H1 & H0 & Hfin & Hlow & Hub & HcT).
+    pose proof (Hub step ltac:(lia)) as Hs. unfold body.
+    assert (Hg : low <= low + (high - low) / 2 < high) by (Z.div_mod_to_equations; lia).
+    set (guess := low + (high - low) / 2) in *.
+    pose proof (types_range guess ltac:(lia)) as Hty.
+    destruct (Z.ltb_spec (nthz types guess) step) as [Hc|Hc].
+    - split; [exact HM|]. unfold measure. lia.
+    - set (type := nthz types guess) in *.
+      assert (Hnth : forall i, 0 <= i -> nthz (fill_range offs (Z.to_nat step) (Z.to_nat (type - step + 1)) guess) i =
+                                       if (step <=? i) && (i <=? type) then guess else nthz offs i).
+      { intros i Hi. apply nthz_fill; lia. }
+      assert (HgF : guess < F (type + 1)). { apply (F_char guess (type + 1)); [lia|]. fold type. lia. }
+      split.
+      + intros i j Hi Hij Hj. rewrite !Hnth by lia.
+        assert (Hbig : forall j', type < j' -> j' <= T -> guess <= nthz offs j').
+        { intros j' Hj1 Hj2. pose proof (Hub j' ltac:(lia)). pose proof (F_mono (type + 1) j' ltac:(lia)). lia. }
+        destruct (Z.leb_spec step i), (Z.leb_spec i type), (Z.leb_spec step j), (Z.leb_spec j type); cbn;
+          try lia; try (apply HM; lia); try (apply Hbig; lia).
+      + unfold measure. apply Nat.add_lt_mono_l.
+        apply (cnt_strict _ _ _ (Z.to_nat guess)).
+        * intros p Hp. unfold guessable. rewrite !andb_true_iff, !Z.leb_le, !Z.ltb_lt. intros [Hp1 Hp2]. split; [exact Hp1|].
+          pose proof (types_range (Z.of_nat p) ltac:(unfold count, len; lia)) as Htp. unfold nthz in Htp. rewrite Nat2Z.id in Htp.
+          rewrite Hnth in Hp2 by lia.
+          destruct (Z.leb_spec step (nth p types 0)), (Z.leb_spec (nth p types 0) type); cbn in Hp2; try lia.
+          pose proof (HM step (nth p types 0) ltac:(lia) ltac:(lia) ltac:(lia)). lia.
+        * unfold count, len in *. lia.
+        * unfold guessable. fold (nthz types guess). fold type. rewrite Z2Nat.id by lia. rewrite Hnth by lia.
+          destruct (Z.leb_spec step type), (Z.leb_spec type type); cbn; try lia; try apply Z.ltb_irrefl.
+        * unfold guessable. fold (nthz types guess). fold type. rewrite Z2Nat.id by lia.
+          rewrite andb_true_iff, Z.leb_le, Z.ltb_lt. split; [lia|].
+          pose proof (HM step type ltac:(lia) ltac:(lia) ltac:(lia)). lia.
+  Qed.
+
+  (* total correctness for every fuel above the measure *)
+  Lemma split_loop_total fuel : forall offs low high step,
+    SInv offs low step -> Mono offs step -> step < T -> high = nthz offs step -> low < high ->
+    (measure offs low step < fuel)%nat ->
+    split_loop fuel types offs low high step T = Some (split_spec types T).
+  Proof.
+    induction fuel as [|f IH]; intros offs low high step HI HM Hst Hh Hlh Hm; [lia|].
+    rewrite split_loop_body.
+    pose proof (body_ok offs low high step HI Hst Hh Hlh) as Hb.
+    pose proof (body_measure offs low high step HI HM Hst Hh Hlh) as Hb2.
+    destruct (body offs low high step) as [[offs1 low1] high1]. destruct Hb as (HI1 & Hh1 & Hle1). destruct Hb2 as (HM1 & Hlt).
+    destruct (advance_ok (S (Z.to_nat T)) offs1 low1 high1 step HI1 Hst Hh1 ltac:(destruct HI1 as (_ & ? & _); lia))
+      as (b & s' & h' & Hadv & Hres).
+    rewrite Hadv. destruct b.
+    - f_equal. destruct HI1 as (Hl & _ & _ & _ & _ & _ & HcT). apply final_spec; assumption.
+    - destruct Hres as (R1 & R2 & R3 & R4 & _). apply IH; [exact R1|eapply Mono_step; [|exact HM1]; lia|lia|exact R3|exact R4|].
+      pose proof (guessable_step offs1 step s' ltac:(lia)). unfold measure in *. lia.
+  Qed.
+
+  Lemma offs0_mono : Mono (0 :: repeat count (Z.to_nat T)) 1.
+  Proof.
+    intros i j Hi Hij Hj. rewrite !nthz_offs0 by lia. destruct (Z.eqb_spec i 0), (Z.eqb_spec j 0); lia.
+  Qed.
+
+  Lemma measure0_le : (measure (0%Z :: repeat count (Z.to_nat T)) 0%Z 1%Z <= 2 * length types)%nat.
+  Proof.
+    unfold measure. pose proof (cnt_le (guessable (0 :: repeat count (Z.to_nat T)) 1) (length types)) as Hc.
+    replace (Z.to_nat (count - 0)) with (length types) by (unfold count, len; lia). lia.
+  Qed.
+
+  (* the model with an arbitrary amount of fuel *)
+  Definition split_model_fuel (fuel : nat) : option (list Z) :=
+    let offs0 := 0 :: repeat count (Z.to_nat T) in
+    if (count =? 0) || (T <=? 1) then Some offs0 else split_loop fuel types offs0 0 count 1 T.
+
+  Lemma split_model_fuel_ok fuel : (2 * length types < fuel)%nat -> split_model_fuel fuel = Some (split_spec types T).
+  Proof.
+    intros Hf. unfold split_model_fuel. destruct ((count =? 0) || (T <=? 1)) eqn:E.
+    - f_equal. apply split_trivial. apply orb_true_iff in E. destruct E as [E|E]; [left; lia|right; lia].
+    - apply orb_false_iff in E. destruct E as [E1 E2]. apply Z.eqb_neq in E1. apply Z.leb_gt in E2.
+      pose proof (len_nonneg types). fold count in H.
+      apply split_loop_total; [apply offs0_inv; lia|exact offs0_mono|lia|rewrite nthz_offs0 by lia; reflexivity|lia|].
+      pose proof measure0_le. lia.
+  Qed.
+
+  (* the model itself: the measure is at most 2 * length types, its fuel is what split_model says *)
+  Lemma split_ok : split_model types T = Some (split_spec types T).
+  Proof.
+    unfold split_model. fold count. destruct ((count =? 0) || (T <=? 1)) eqn:E.
+    - f_equal. apply split_trivial. apply orb_true_iff in E. destruct E as [E|E]; [left; lia|right; lia].
+    - apply orb_false_iff in E. destruct E as [E1 E2]. apply Z.eqb_neq in E1. apply Z.leb_gt in E2.
+      pose proof (len_nonneg types). fold count in H.
+      apply split_loop_total; [apply offs0_inv; lia|exact offs0_mono|lia|rewrite nthz_offs0 by lia; reflexivity|lia|].
+      pose proof measure0_le. lia.
+  Qed.
+
   (* partial correctness of the model *)
   Lemma split_sound o : split_model types T = Some o -> o = split_spec types T.
   Proof.
@@ -627,17 +743,101 @@ Section Split.
   Qed.
 End Split.
 
-(* ---------- loops_ok ---------------------------------------------------------------------------------------------- *)
-(* the split loop is partially correct (split_sound); its termination within the fuel S (length types + T) of the model
-   is the only remaining hypothesis *)
-Definition split_terminates : Prop :=
-  forall types T, 0 <= T -> sorted_z types = true -> forallb (fun t => (0 <=? t) && (t <? T)) types = true ->
-  split_model types T <> None.
-
-Theorem loops_ok_from_split_terminates : split_terminates -> forall cmp, loops_ok cmp.
+(* ---------- the definitions themselves -------------------------------------------------------------------------- *)
+(* split_spec: on type-sorted input, [offsets[k], offsets[k+1]) is exactly the set of positions holding type k *)
+Lemma nthz_split_spec types T k : 0 <= k <= T -> nthz (split_spec types T) k = fin types k.
 Proof.
-  intros Hterm cmp. split; [apply uniq_ok|]. split; [|apply permute_ok].
-  intros types T HT Hs Hr. destruct (split_model types T) as [o|] eqn:E.
-  - f_equal. apply (split_sound types T HT Hs Hr). exact E.
-  - exfalso. exact (Hterm types T HT Hs Hr E).
+  intros Hk. rewrite split_spec_fin. unfold nthz. rewrite nth_map_seq by lia. rewrite Z2Nat.id by lia. reflexivity.
 Qed.
+
+Lemma split_spec_boundaries types T : sorted_z types = true ->
+  forallb (fun t => (0 <=? t) && (t <? T)) types = true ->
+  forall k i, 0 <= k < T -> (i < length types)%nat ->
+  (nthz (split_spec types T) k <= Z.of_nat i < nthz (split_spec types T) (k + 1) <-> nth i types 0 = k).
+Proof.
+  intros Hs _ k i Hk Hi. rewrite !nthz_split_spec by lia.
+  pose proof (fin_char types Hs i k Hi) as H1. pose proof (fin_char types Hs i (k + 1) Hi) as H2. lia.
+Qed.
+
+(* uniq_spec: a subsequence of the input *)
+Inductive subseq {A} : list A -> list A -> Prop :=
+| subseq_nil : subseq [] []
+| subseq_skip x l1 l2 : subseq l1 l2 -> subseq l1 (x :: l2)
+| subseq_keep x l1 l2 : subseq l1 l2 -> subseq (x :: l1) (x :: l2).
+
+Section UniqSpec.
+  Variable cmp : list Z -> list Z -> Z.
+
+  Lemma uniq_spec_subseq l : subseq (uniq_spec cmp l) l.
+  Proof.
+    induction l as [|x r IH]; [constructor|]. cbn [uniq_spec]. destruct r as [|y r'].
+    - apply subseq_keep, subseq_nil.
+    - destruct (cmp x y =? 0); [apply subseq_skip, IH|apply subseq_keep, IH].
+  Qed.
+
+  (* cmp x y = 0 is an equivalence *)
+  Hypothesis cmp_refl : forall x, cmp x x = 0.
+  Hypothesis cmp_sym : forall x y, cmp x y = 0 -> cmp y x = 0.
+  Hypothesis cmp_trans : forall x y z, cmp x y = 0 -> cmp y z = 0 -> cmp x z = 0.
+
+  Fixpoint adjdiff (l : list (list Z)) : Prop :=
+    match l with
+    | x :: r => match r with y :: _ => cmp x y <> 0 /\ adjdiff r | [] => True end
+    | [] => True
+    end.
+
+  Lemma uniq_spec_head y r : exists h t, uniq_spec cmp (y :: r) = h :: t /\ cmp y h = 0.
+  Proof.
+    revert y. induction r as [|z r IH]; intros y.
+    - exists y, []. split; [reflexivity|apply cmp_refl].
+    - cbn [uniq_spec]. destruct (cmp y z =? 0) eqn:E.
+      + apply Z.eqb_eq in E. destruct (IH z) as (h & t & Hh & Hc). exists h, t. split; [exact Hh|]. eapply cmp_trans; eassumption.
+      + exists y, (uniq_spec cmp (z :: r)). split; [reflexivity|apply cmp_refl].
+  Qed.
+
+  (* adjacent elements of the result are different *)
+  Lemma uniq_spec_adjdiff l : adjdiff (uniq_spec cmp l).
+  Proof.
+    induction l as [|x r IH]; [exact I|]. cbn [uniq_spec]. destruct r as [|y r'].
+    - cbn. exact I.
+    - destruct (cmp x y =? 0) eqn:E; [exact IH|]. apply Z.eqb_neq in E.
+      destruct (uniq_spec_head y r') as (h & t & Hh & Hc). rewrite Hh in *. cbn [adjdiff]. split; [|exact IH].
+      intros Hx. apply E. eapply cmp_trans; [exact Hx|]. apply cmp_sym. exact Hc.
+  Qed.
+End UniqSpec.
+
+(* is_perm decides "is a permutation of 0 .. count-1" *)
+Lemma perm_count_total vals count : forall c, (forall z, In z vals -> 0 <= z < count) -> exists c', perm_count vals count c = Some c'.
+Proof.
+  induction vals as [|zj r IH]; intros c H; [exists c; reflexivity|]. cbn [perm_count].
+  pose proof (H zj (or_introl eq_refl)) as Hz.
+  destruct (Z.ltb_spec zj 0); [lia|]. destruct (Z.leb_spec count zj); [lia|]. cbn [orb]. apply IH. intros z Hzr. apply H. right. exact Hzr.
+Qed.
+
+Lemma is_perm_iff ni : is_perm ni = 1 <-> Permutation ni (map Z.of_nat (seq 0 (length ni))).
+Proof.
+  split.
+  - intros H. destruct (is_perm_facts ni H) as (Hr & Hnd & _).
+    apply NoDup_Permutation_bis; [exact Hnd|rewrite map_length, seq_length; lia|].
+    intros z Hz. specialize (Hr z Hz). apply in_map_iff. exists (Z.to_nat z). split; [lia|]. apply in_seq. lia.
+  - intros HP. unfold is_perm, len. destruct (Z.of_nat (length ni) =? 0) eqn:E0; [reflexivity|].
+    assert (Hr : forall z, In z ni -> 0 <= z < Z.of_nat (length ni)).
+    { intros z Hz. apply (Permutation_in _ HP) in Hz. apply in_map_iff in Hz. destruct Hz as (k & <- & Hk). apply in_seq in Hk. lia. }
+    destruct (perm_count_total ni (Z.of_nat (length ni)) (repeat 0 (length ni)) Hr) as [c' Hc]. rewrite Hc.
+    apply perm_count_spec in Hc; [|rewrite repeat_length; reflexivity]. destruct Hc as (_ & Hl & Hn). rewrite repeat_length in Hl.
+    assert (Hf : forallb (fun c => c =? 1) c' = true).
+    { apply forallb_forall. intros x Hx. apply (In_nth _ _ 0) in Hx. destruct Hx as (k & Hk & <-). rewrite Hn.
+      rewrite nth_repeat_lt by lia.
+      assert (HP2 : Permutation (map Z.to_nat ni) (seq 0 (length ni))).
+      { apply (Permutation_map Z.to_nat) in HP. rewrite map_map in HP. rewrite (map_ext _ (fun x => x)) in HP by (intros; apply Nat2Z.id).
+        rewrite map_id in HP. exact HP. }
+      rewrite (Permutation_count_occ Nat.eq_dec) in HP2. rewrite HP2.
+      assert (count_occ Nat.eq_dec (seq 0 (length ni)) k = 1%nat).
+      { pose proof (proj1 (NoDup_count_occ' Nat.eq_dec (seq 0 (length ni))) (seq_NoDup _ _) k) as Hc1. apply Hc1. apply in_seq. lia. }
+      apply Z.eqb_eq. lia. }
+    rewrite Hf. reflexivity.
+Qed.
+
+(* ---------- loops_ok ---------------------------------------------------------------------------------------------- *)
+Theorem loops_ok_all : forall cmp, loops_ok cmp.
+Proof. intros cmp. split; [apply uniq_ok|]. split; [apply split_ok|apply permute_ok]. Qed.
